@@ -256,6 +256,36 @@ def run_impl(ctx, impl, cases, timeout=900):
     return out
 
 
+def gen_snapshot(paths):
+    """text of the generated files right after this run's translators wrote them"""
+    out = {}
+    for p in paths:
+        try:
+            out[p] = open(p).read()
+        except OSError:
+            out[p] = None
+    return out
+
+
+def gen_overwritten(ctx, snap):
+    """coq/Gen/*.v is one shared location: another run (a check on another tree, tools/setup.sh) may rewrite a
+    generated file between this run's translation and its proof build, and the theorems are then checked against
+    somebody else's source.  Detected here and reported (no input blamed): the run is not conclusive."""
+    changed = [os.path.relpath(p, pv.ROOT) for p, old in snap.items() if old is not None and _read(p) != old]
+    if changed:
+        ctx.violation("gen-overwritten", {"kind": "environment", "files": changed}, False,
+                      "%s changed while this check was building its proofs (a concurrent run regenerated it from another tree): "
+                      "the obligations were not checked against the source of THIS run; run the check again" % ", ".join(changed))
+    return bool(changed)
+
+
+def _read(p):
+    try:
+        return open(p).read()
+    except OSError:
+        return None
+
+
 def run(ctx):
     # a run on a scratch copy (PV_REPO) regenerates the shared coq/Gen/CApiTable.v from that copy:
     # put the /repo version back afterwards
@@ -305,7 +335,9 @@ def run_(ctx):
     proofs_src = open(os.path.join(pv.COQ, "CApi", "CApiProofs.v")).read()
     gen_obl = len(re.findall(r"^Lemma (table_\w+|helper_table_ok|handler_matches)\b", proofs_src, re.M))
     gen_obl += len(re.findall(r"^Lemma fwd_\w+_b\b", open(os.path.join(pv.COQ, "CApi", "ForwardingProofs.v")).read(), re.M))
+    snap = gen_snapshot([os.path.join(pv.COQ, "Gen", "CApiTable.v"), c20_fwd.table_v()])
     res = ctx.prove(extra_targets=["Extract/ExtractCapi.vo"], gen_obligations=gen_obl)
+    gen_overwritten(ctx, snap)
     ctx.cov["table"] = {
         "wrappers": len(table["functions"]),
         "files": sorted({f["file"] for f in table["functions"]}),
